@@ -378,6 +378,8 @@ def run_cp(u, ctx):
             if p.startswith('/'):
                 p = 'd' + p     # an absolute path is not a legal entry path
             batch.append({'tag': 'DATA', 'path': p, 'size': cp, 'sums': {}})
+        # ... and as the last character of a line (IGNORE has no field after the path)
+        batch.append({'tag': 'IGNORE', 'path': 'p' + ch})
         if len(batch) >= 1000:
             _cp_batch(ctx, batch)
             batch = []
@@ -398,7 +400,7 @@ def _cp_batch(ctx, batch):
     ctx.enumerated += n
     ctx.counters['class:codepoint-context'] += n
     ctx.signatures.add('cp-batch')
-    if batch[0]['size'] % 0x8000 == 0:
+    if batch[0].get('size', 1) % 0x8000 == 0:
         ctx.sample({'kind': 'cp', 'entries': batch[:3]}, 'cp')
 
 
